@@ -868,6 +868,51 @@ impl_from_str! {
     fn get_frac128, (get_frac64, true);
 }
 
+/// Verification hook (compiled only with `--cfg substrate_fixed_verif`): exposes the private
+/// decimal-fraction kernels so that the checks under /verif can drive them directly.
+#[cfg(substrate_fixed_verif)]
+pub mod verif_kernels {
+    use super::{dec_str_frac_to_bin, DecToBin, Round};
+
+    fn round(nearest: bool) -> Round {
+        if nearest {
+            Round::Nearest
+        } else {
+            Round::Floor
+        }
+    }
+    pub fn dec_to_bin_u8(val: u16, nbits: u32, nearest: bool) -> Option<u8> {
+        <u8 as DecToBin>::dec_to_bin(val, nbits, round(nearest))
+    }
+    pub fn dec_to_bin_u16(val: u32, nbits: u32, nearest: bool) -> Option<u16> {
+        <u16 as DecToBin>::dec_to_bin(val, nbits, round(nearest))
+    }
+    pub fn dec_to_bin_u32(val: u64, nbits: u32, nearest: bool) -> Option<u32> {
+        <u32 as DecToBin>::dec_to_bin(val, nbits, round(nearest))
+    }
+    pub fn dec_to_bin_u64(val: u128, nbits: u32, nearest: bool) -> Option<u64> {
+        <u64 as DecToBin>::dec_to_bin(val, nbits, round(nearest))
+    }
+    pub fn dec_to_bin_u128(hi: u128, lo: u128, nbits: u32, nearest: bool) -> Option<u128> {
+        <u128 as DecToBin>::dec_to_bin((hi, lo), nbits, round(nearest))
+    }
+    pub fn frac_to_bin_u8(bytes: &[u8], nbits: u32) -> Option<u8> {
+        dec_str_frac_to_bin::<u8>(bytes, nbits)
+    }
+    pub fn frac_to_bin_u16(bytes: &[u8], nbits: u32) -> Option<u16> {
+        dec_str_frac_to_bin::<u16>(bytes, nbits)
+    }
+    pub fn frac_to_bin_u32(bytes: &[u8], nbits: u32) -> Option<u32> {
+        dec_str_frac_to_bin::<u32>(bytes, nbits)
+    }
+    pub fn frac_to_bin_u64(bytes: &[u8], nbits: u32) -> Option<u64> {
+        dec_str_frac_to_bin::<u64>(bytes, nbits)
+    }
+    pub fn frac_to_bin_u128(bytes: &[u8], nbits: u32) -> Option<u128> {
+        dec_str_frac_to_bin::<u128>(bytes, nbits)
+    }
+}
+
 #[cfg(test)]
 mod tests {
     use crate::{
